@@ -58,23 +58,25 @@
 }
 pub mod context {
     use vstd::prelude::*;
-    use super::semantic_error::SemanticErrorKind;
+    use super::semantic_error::{SemanticErrorKind, SemanticErrorList};
     use super::symbols::*;
     use super::types::Type;
     use super::asg;
     use super::synast::AstNode;
     pub use super::symbols::Ev;
-    /// everything of the analyser context except the symbol table (program, diagnostics, const values, annotations)
+    /// the rest of the analyser context (const values, pending annotations)
     #[verifier::external_body] pub struct ContextRest { _p: u8 }
     impl ContextRest {
-        pub uninterp spec fn errs(&self) -> Seq<SemanticErrorKind>;
         pub uninterp spec fn const_value(&self, id: SymbolId) -> Option<asg::TExpr>;
+        /// annotations waiting for the statement that follows them
+        pub uninterp spec fn annots(&self) -> Seq<asg::Annotation>;
     }
-    /// `symbol_table` is the real field name (the `with_scope!` macro of context.rs reaches it directly)
-    pub struct Context { pub symbol_table: SymbolTable, pub rest: ContextRest }
+    /// `symbol_table`, `semantic_errors`, `program` are the real field names (the `with_scope!` macro of context.rs
+    /// and syntax_to_semantic reach them directly)
+    pub struct Context { pub symbol_table: SymbolTable, pub semantic_errors: SemanticErrorList, pub program: asg::Program, pub rest: ContextRest }
     impl Context {
-        /// kinds of the semantic diagnostics recorded so far, in order
-        pub open spec fn errs(&self) -> Seq<SemanticErrorKind> { self.rest.errs() }
+        /// kinds of the semantic diagnostics recorded so far (for the file being analysed), in order
+        pub open spec fn errs(&self) -> Seq<SemanticErrorKind> { self.semantic_errors.kinds() }
         pub open spec fn scopes(&self) -> Seq<Scope> { self.symbol_table.scopes() }
         /// what the name resolves to now (innermost-first; SYM unit): id and type
         pub open spec fn resolve(&self, name: Seq<char>) -> Option<(SymbolId, Type)> { resolve_in(self.symbol_table.scopes(), name) }
@@ -82,20 +84,50 @@ pub mod context {
         pub open spec fn in_current_scope(&self, name: Seq<char>) -> bool { self.symbol_table.scopes().last().contains_key(name) }
         pub open spec fn global(&self) -> bool { self.symbol_table.global() }
         pub open spec fn const_value(&self, id: SymbolId) -> Option<asg::TExpr> { self.rest.const_value(id) }
+        pub open spec fn annots(&self) -> Seq<asg::Annotation> { self.rest.annots() }
         /// order of symbol-table events (C07: an initializer is analysed before its name is bound)
         pub open spec fn trace(&self) -> Seq<Ev> { self.symbol_table.trace() }
         pub open spec fn wf(&self) -> bool { self.symbol_table.wf() }
+        /// nothing but the list of diagnostics differs
+        pub open spec fn same_tables(&self, o: &Context) -> bool {
+            &&& self.symbol_table == o.symbol_table
+            &&& self.program == o.program
+            &&& self.rest == o.rest
+            &&& self.semantic_errors.included() == o.semantic_errors.included()
+        }
+        /// context.rs: `Context { program: asg::Program::new(), semantic_errors: SemanticErrorList::new(file_path), symbol_table: SymbolTable::new(), .. }`
+        /// (unit SYM: SymbolTable::new is well formed with only the global scope open)
+        #[verifier::external_body] pub fn new(file_path: crate::source::PathBuf) -> (r: Context)
+            ensures r.wf(), r.global(), r.errs() == Seq::<SemanticErrorKind>::empty(), r.semantic_errors.included().len() == 0,
+                r.program.stmts@.len() == 0, r.program.version is None, r.annots().len() == 0,
+        { unimplemented!() }
 
         #[verifier::external_body] pub fn insert_error<T: AstNode>(&mut self, error_kind: SemanticErrorKind, node: &T)
             ensures final(self).errs() == old(self).errs().push(error_kind), final(self).same_tables(old(self))
         { unimplemented!() }
-        pub open spec fn same_tables(&self, o: &Context) -> bool {
-            &&& self.symbol_table == o.symbol_table
-            &&& forall|i: SymbolId| self.const_value(i) == o.const_value(i)
-        }
         /// context.rs: `self.annotations.push(annotation)`
         #[verifier::external_body] pub fn push_annotation(&mut self, annotation: asg::Annotation)
-            ensures final(self).errs() == old(self).errs(), final(self).same_tables(old(self))
+            ensures final(self).semantic_errors == old(self).semantic_errors, final(self).symbol_table == old(self).symbol_table, final(self).program == old(self).program,
+                forall|i: SymbolId| final(self).const_value(i) == old(self).const_value(i), final(self).annots() == old(self).annots().push(annotation),
+        { unimplemented!() }
+        /// context.rs: `self.annotations.is_empty()`
+        #[verifier::external_body] pub fn annotations_is_empty(&self) -> (r: bool) ensures r == (self.annots().len() == 0) { unimplemented!() }
+        /// context.rs: clone the pending annotations, clear them, return the clone
+        #[verifier::external_body] pub fn take_annotations(&mut self) -> (r: Vec<asg::Annotation>)
+            ensures r@ == old(self).annots(), final(self).annots().len() == 0,
+                final(self).semantic_errors == old(self).semantic_errors, final(self).symbol_table == old(self).symbol_table, final(self).program == old(self).program,
+                forall|i: SymbolId| final(self).const_value(i) == old(self).const_value(i),
+        { unimplemented!() }
+        /// context.rs: `self.semantic_errors.push_included(errors)`
+        #[verifier::external_body] pub fn push_errors_from_included_file(&mut self, errors: SemanticErrorList)
+            ensures final(self).errs() == old(self).errs(), final(self).semantic_errors.included() == old(self).semantic_errors.included().push(errors),
+                final(self).symbol_table == old(self).symbol_table, final(self).program == old(self).program, final(self).rest == old(self).rest,
+        { unimplemented!() }
+        /// context.rs: binds the standard-library gates in the current scope (one RedeclarationError per name already bound);
+        /// unit SYM new_binding: nothing is replaced, no scope is opened or closed
+        #[verifier::external_body] pub fn standard_library_gates<T: AstNode>(&mut self, node: &T)
+            requires old(self).wf(),
+            ensures crate::scoped(*old(self), *final(self)), final(self).rest == old(self).rest,
         { unimplemented!() }
         #[verifier::external_body] pub fn symbol_table(&self) -> (r: &SymbolTable)
             ensures *r == self.symbol_table
@@ -104,8 +136,8 @@ pub mod context {
             ensures (r is Some) == (self.const_value(id) is Some), r is Some ==> *r->Some_0 == self.const_value(id)->Some_0
         { unimplemented!() }
         #[verifier::external_body] pub fn insert_const_value(&mut self, id: SymbolId, value: asg::TExpr)
-            ensures final(self).errs() == old(self).errs(), final(self).const_value(id) == Some(value),
-                final(self).symbol_table == old(self).symbol_table,
+            ensures final(self).semantic_errors == old(self).semantic_errors, final(self).const_value(id) == Some(value),
+                final(self).symbol_table == old(self).symbol_table, final(self).program == old(self).program, final(self).annots() == old(self).annots(),
         { unimplemented!() }
         /// SYM unit (Context::lookup_symbol + lookup + as_tuple): exactly one UndefVarError iff unresolved
         #[verifier::external_body] pub fn lookup_symbol<T: AstNode>(&mut self, name: &str, node: &T) -> (r: SymbolRecordResult)
@@ -129,7 +161,9 @@ pub mod context {
         pub open spec fn same_tables_but_trace(&self, o: &Context) -> bool {
             &&& self.symbol_table.scopes() == o.symbol_table.scopes()
             &&& self.symbol_table.scope_types() == o.symbol_table.scope_types()
-            &&& forall|i: SymbolId| self.const_value(i) == o.const_value(i)
+            &&& self.program == o.program
+            &&& self.rest == o.rest
+            &&& self.semantic_errors.included() == o.semantic_errors.included()
         }
         /// SYM unit (Context::new_binding): one RedeclarationError iff the name is in the current scope,
         /// and then nothing is bound; otherwise exactly the innermost scope gains exactly this binding
@@ -138,7 +172,7 @@ pub mod context {
             ensures
                 final(self).trace() == old(self).trace().push(Ev::Bind(name@, *typ)),
                 final(self).symbol_table.scope_types() == old(self).symbol_table.scope_types(),
-                forall|i: SymbolId| final(self).const_value(i) == old(self).const_value(i),
+                final(self).program == old(self).program, final(self).rest == old(self).rest, final(self).semantic_errors.included() == old(self).semantic_errors.included(),
                 old(self).in_current_scope(name@) ==> r is Err && final(self).errs().len() == old(self).errs().len() + 1
                     && final(self).errs().drop_last() == old(self).errs() && final(self).errs().last() is RedeclarationError
                     && final(self).scopes() == old(self).scopes(),
